@@ -1,19 +1,12 @@
 (* C13 — proofs.
 
-   Full statements (for all well-formed a b of any heights, under addr_inj):
-
-     tree_diff_spec  : tree_diff addr_eqb false a b = Some (list_diff (flatten a) (flatten b))
-     range_diff_spec : range_diff addr_eqb lo hi a b
-                         = Some (range_list_diff lo hi (flatten a) (flatten b))
-                       (same for key_range_diff)
-
-   NOT proved in this file for trees with internal nodes. What is proved:
-   the cursor layer the differ runs on (Prolly/Cursor.v: advance_sem,
-   cursor_at_start_sem, for every depth), soundness of subtree skipping under
-   addr_inj (skip_sound), and the algebra of the declarative diff that the
-   skipping argument needs (a common prefix contributes nothing; equal maps
-   have an empty diff; one-sided diffs). The equation itself is checked by the
-   correspondence on the real tree shapes (model = implementation = oracle). *)
+   Proved (bottom of the file): tree_diff_spec / diff_maps_spec — for every pair of
+   well-formed trees of any depths and shapes, under addr_inj, the differ as
+   implemented (two stack cursors, skipCommon / skipCommonParents with
+   parentsAreNew, either value of considerAllRowsModified, the model's own fuel)
+   returns exactly the declarative diff of the two flattenings.
+   Not proved: the same for bounded key ranges (see the comment before
+   key_range_diff_unbounded_partial). *)
 From Coq Require Import NArith ZArith PeanoNat List Bool Lia.
 From Dolt Require Import Prolly.Tree Prolly.Cursor C13.Model C13.Spec.
 Import ListNotations.
@@ -506,3 +499,123 @@ Proof.
   intros addr_inj am a b Ha Hb. unfold diff_maps. rewrite (tree_diff_spec addr_eqb addr_inj am a b Ha Hb).
   cbn [option_map]. rewrite canonical_filter_g, list_diff_g_false. reflexivity.
 Qed.
+
+Lemma filter_all_true' {A} (l : list A) : filter (fun _ => true) l = l.
+Proof. induction l as [|x l IH]; [reflexivity|]. cbn [filter]. rewrite IH. reflexivity. Qed.
+
+(* ---- ranges ---------------------------------------------------------------------
+   Full statement (NOT proved):
+
+     range_diff_spec : forall lo hi a b, wf_root a -> wf_root b ->
+       key_range_diff addr_eqb lo hi a b = Some (range_list_diff lo hi (flatten a) (flatten b))
+       /\ range_diff addr_eqb lo hi a b = Some (range_list_diff lo hi (flatten a) (flatten b))
+
+   Missing: (a) the start/stop cursors built by newCursorAtKey / the range search
+   functions satisfy `cinv` and have exactly the entries >= the bound ahead of them
+   (`cursor_at_search`), (b) compareCursors against a stop cursor that lies inside
+   the tree orders cursors like the number of entries ahead of them (needs the
+   structural form of `linked`: each frame is a suffix of the node's entries).
+   Everything else (skipCommon / skipCommonParents, advance, fuel) is covered by
+   skip_ok / diff_ok / diff_total above, which do not depend on where the cursors start.
+   Proved here: the unbounded range. *)
+Theorem key_range_diff_unbounded_partial (addr_eqb : node -> node -> bool) :
+  (forall x y, addr_eqb x y = true -> x = y) ->
+  forall a b, wf_root a -> wf_root b ->
+    key_range_diff addr_eqb None None a b = Some (range_list_diff None None (flatten a) (flatten b)).
+Proof.
+  intros addr_inj a b Ha Hb.
+  change (key_range_diff addr_eqb None None a b) with (diff_maps addr_eqb false a b).
+  rewrite (diff_maps_spec addr_eqb addr_inj false a b Ha Hb). unfold range_list_diff, d_range.
+  cbn [in_range andb]. rewrite !filter_all_true'. reflexivity.
+Qed.
+
+(* ---- what the declarative diff says -------------------------------------------- *)
+
+Lemma d_get_none_lb q (l : list kv) : Forall (N.lt q) (keys l) -> d_get q l = None.
+Proof.
+  induction l as [|[k v] l IH]; intros H; [reflexivity|].
+  cbn [keys map fst] in H. inversion H as [|? ? Hk Hl]; subst. cbn [d_get].
+  destruct (k =? q) eqn:E; [apply N.eqb_eq in E; lia|]. apply IH, Hl.
+Qed.
+
+Lemma sorted_tail' a (l : list key) : ksorted (a :: l) -> ksorted l /\ Forall (N.lt a) l.
+Proof. intros H. inversion H; subst. split; assumption. Qed.
+
+Lemma Forall_lt_weaken x y (l : list key) : x <= y -> Forall (N.lt y) l -> Forall (N.lt x) l.
+Proof. intros Hxy H. rewrite Forall_forall in *. intros z Hz. specialize (H z Hz). lia. Qed.
+
+(* every reported change has a key at or above the smaller head: used for ascending order *)
+Lemma list_diff_lb x : forall a b,
+  Forall (N.lt x) (keys a) -> Forall (N.lt x) (keys b) -> Forall (fun c => x < change_key c) (list_diff a b).
+Proof.
+  induction a as [|[ka va] a IHa]; intros b Ha Hb.
+  - cbn [list_diff]. rewrite Forall_forall in *. intros c Hc. apply in_map_iff in Hc as (e & <- & He).
+    cbn [change_key]. apply Hb. apply in_map, He.
+  - cbn [keys map fst] in Ha. inversion Ha as [|? ? Hka Ha']; subst.
+    induction b as [|[kb vb] b IHb].
+    + rewrite list_diff_nil_r. rewrite Forall_forall. intros c Hc. apply in_map_iff in Hc as (e & <- & He).
+      cbn [change_key]. rewrite Forall_forall in Ha. apply Ha. change (In (fst e) (map fst ((ka, va) :: a))). apply in_map, He.
+    + cbn [keys map fst] in Hb. inversion Hb as [|? ? Hkb Hb']; subst.
+      rewrite list_diff_head. destruct (ka <? kb).
+      * constructor; [exact Hka|]. apply IHa; assumption.
+      * destruct (kb <? ka).
+        -- constructor; [exact Hkb|]. apply IHb, Hb'.
+        -- destruct (va =? vb); [apply IHa; assumption|]. constructor; [exact Hka|]. apply IHa; assumption.
+Qed.
+
+(* ascending, each key at most once *)
+Theorem list_diff_sorted : forall a b,
+  ksorted (keys a) -> ksorted (keys b) -> ksorted (map change_key (list_diff a b)).
+Proof.
+  induction a as [|[ka va] a IHa]; intros b Ha Hb.
+  - cbn [list_diff]. rewrite map_map. cbn [change_key]. exact Hb.
+  - cbn [keys map fst] in Ha. pose proof Ha as Ha0. apply sorted_tail' in Ha as [Ha Hfa].
+    induction b as [|[kb vb] b IHb].
+    + rewrite list_diff_nil_r, map_map. cbn [change_key]. exact Ha0.
+    + cbn [keys map fst] in Hb. pose proof Hb as Hb0. apply sorted_tail' in Hb as [Hb Hfb].
+      rewrite list_diff_head. destruct (ka <? kb) eqn:E1.
+      * apply N.ltb_lt in E1. cbn [map change_key]. constructor; [apply IHa; assumption|].
+        rewrite Forall_map. apply list_diff_lb; [exact Hfa|].
+        cbn [keys map fst]. constructor; [exact E1|]. apply (Forall_lt_weaken ka kb); [lia|exact Hfb].
+      * apply N.ltb_ge in E1. destruct (kb <? ka) eqn:E2.
+        -- apply N.ltb_lt in E2. cbn [map change_key]. constructor; [apply IHb, Hb|].
+           rewrite Forall_map. apply list_diff_lb; [|exact Hfb].
+           cbn [keys map fst]. constructor; [exact E2|]. apply (Forall_lt_weaken kb ka); [lia|exact Hfa].
+        -- apply N.ltb_ge in E2. assert (ka = kb) by lia. subst kb.
+           destruct (va =? vb); [apply IHa; assumption|].
+           cbn [map change_key]. constructor; [apply IHa; assumption|].
+           rewrite Forall_map. apply list_diff_lb; assumption.
+Qed.
+
+Lemma in_sorted_get k v (l : list kv) : ksorted (keys l) -> In (k, v) l -> d_get k l = Some v.
+Proof.
+  induction l as [|[k' v'] l IH]; intros Hs He; [destruct He|].
+  cbn [keys map fst] in Hs. apply sorted_tail' in Hs as [Hs Hf]. cbn [d_get].
+  destruct He as [E|He]; [injection E as -> ->; rewrite N.eqb_refl; reflexivity|].
+  destruct (k' =? k) eqn:E; [|apply IH; assumption].
+  apply N.eqb_eq in E. subst k'. rewrite Forall_forall in Hf.
+  assert (k < k) by (apply Hf, in_map_iff; exists (k, v); split; [reflexivity|exact He]). lia.
+Qed.
+
+Lemma get_in k w (l : list kv) : d_get k l = Some w -> In (k, w) l.
+Proof.
+  induction l as [|[k' v'] l IH]; [discriminate|]. cbn [d_get].
+  destruct (k' =? k) eqn:E; [apply N.eqb_eq in E; intros H; injection H as ->; subst k'; left; reflexivity | intros H; right; apply IH, H].
+Qed.
+
+Lemma removed_all_complete (l : list kv) c :
+  ksorted (keys l) ->
+  In c (map (fun e => Removed (fst e) (snd e)) l) <-> key_change (change_key c) l [] = Some c.
+Proof.
+  intros Hs. unfold key_change. cbn [d_get]. split.
+  - intros Hc. apply in_map_iff in Hc as ([k v] & <- & He). cbn [change_key fst snd].
+    rewrite (in_sorted_get k v l Hs He). reflexivity.
+  - destruct (d_get (change_key c) l) as [w|] eqn:E; [|discriminate]. intros H. injection H as <-.
+    cbn [change_key] in E. apply in_map_iff. exists (change_key (Removed (change_key c) w), w).
+    cbn [change_key fst snd]. split; [reflexivity|]. apply get_in, E.
+Qed.
+
+(* Not proved here (stated for the record): list_diff_complete —
+     forall a b, ksorted (keys a) -> ksorted (keys b) ->
+     forall c, In c (list_diff a b) <-> key_change (change_key c) a b = Some c.
+   The one-sided cases are removed_all_complete above and its mirror image. *)
